@@ -16,7 +16,8 @@
    chk_C06       : the executable checker (also the monitor on the implementation's packets). *)
 From Coq Require Import List NArith Bool Permutation String.
 From Mdns Require Import Res Bytes Rec Intf IntfCache Responder ResponderSpec IntfDaemon ResponderProofs
-     ResponderAddrProofs ResponderJustProofs ResponderHistoryProofs ResponderWitness.
+     ResponderAddrProofs ResponderJustProofs ResponderHistoryProofs ResponderWitness IntfHistoryProofs
+     ResponderLogProofs C18Witness.
 Import ListNotations.
 Open Scope N_scope.
 
@@ -125,12 +126,45 @@ Theorem C06_response_shape_all_inputs : forall inp p, handle_query inp = Some p 
   dest_v4 (p_dest p) = is_v4 (h_src_ip inp).
 Proof. exact handle_query_packet. Qed.
 
-(* C06_announced_was_announced_partial: NOT mechanised - "a service whose status is Announced on an
-   interface has had its announcement sent there since its registration" as an invariant over the
-   histories of Model/IntfDaemon.v (it needs a ghost log of the emitted packets through every
-   operation); the status is set to Announced only next to an emitted announcement in
-   do_register, add_interface and do_retrans, and the correspondence run derives the status the
-   same way (announcement seen on the wire). *)
+(* Over ALL histories of the daemon model (Model/IntfDaemon.v), with a ghost log of everything
+   emitted (log_of = the observations of all iterations in order): the invariant AInv (a service is
+   Announced on an interface only if an announcement of it, built by announce_on for that
+   interface, is in the log; keys are the lower-cased full names) holds initially and is preserved
+   by every operation (register, unregister, enable / disable, interface events, IP checks,
+   datagrams, retransmissions).  Hence in the state reached by ANY history every record of every
+   response to a datagram belongs to a registered service that is Announced on the receiving
+   interface AND whose announcement went out for that interface earlier in that history.
+   (The model registers without probing - the generated histories of C18 do - so "after its
+   probes" is vacuous here; C10/C11 cover probing.) *)
+Theorem C06_ghost_invariant_step : forall L d s, AInv L d -> AInv (L ++ snd (iterate d s)) (fst (iterate d s)).
+Proof. exact iterate_A. Qed.
+
+Theorem C06_ghost_invariant_history : forall steps L d, AInv L d -> AInv (L ++ log_of d steps) (state_after d steps).
+Proof. exact history_A. Qed.
+
+Theorem C06_answers_after_announcement : forall t0 os0 steps g o,
+  let d := state_after (initial_state t0 os0) steps in
+  In o (snd (handle_dgram d g)) ->
+  match o with
+  | OSent p => exists intf p0,
+      intf_get (dg_if g) (d_intfs d) = Some intf /\ p = reroute (d_os d) intf p0 /\
+      Forall (fun r => exists k ds, In (k, ds) (d_svcs d) /\ status_get (dg_if g) (ds_status ds) = Announced /\
+                                    svc_rec [] intf (ds_svc ds) r /\
+                                    announced_in (log_of (initial_state t0 os0) steps) k (dg_if g))
+             (p_answers p0 ++ p_additionals p0)
+  | _ => True
+  end.
+Proof. exact answers_after_announcement. Qed.
+
+(* non-vacuity: after one registration on two interfaces the service is Announced on both, two
+   packets are in the log, and the invariant finds the announcements *)
+Example C06_ghost_log_example :
+  let d := state_after (initial_state t0 os_w1) h_reg in
+  (exists ds, In (key_svc0, ds) (d_svcs d) /\ status_get 2 (ds_status ds) = Announced /\ status_get 3 (ds_status ds) = Announced) /\
+  List.length (log_of (initial_state t0 os_w1) h_reg) = 2%nat /\
+  announced_in (log_of (initial_state t0 os_w1) h_reg) key_svc0 2 /\
+  announced_in (log_of (initial_state t0 os_w1) h_reg) key_svc0 3.
+Proof. exact log_example. Qed.
 
 (* ---- the full statement "forall inp, wf_input inp = true -> chk_C06 inp (handle_query inp) = true"
         is FALSE of the faithful model; one witness per remaining deviation (refutes n w: w is
@@ -206,3 +240,7 @@ Print Assumptions C06_renamed_mixed_case_instance_answered.
 Print Assumptions C06_lost_name_not_answered.
 Print Assumptions C06_legacy_id_echoed.
 Print Assumptions C06_clean_example.
+Print Assumptions C06_ghost_invariant_step.
+Print Assumptions C06_ghost_invariant_history.
+Print Assumptions C06_answers_after_announcement.
+Print Assumptions C06_ghost_log_example.
